@@ -17,6 +17,10 @@
 #include <yara/rules.h>
 #include <yara/error.h>
 /* mem.c is replaced for this harness (see yr_realloc below). */
+#if VF_MODE == 3
+#include "mem.c"
+#define yr_realloc vf_unused_realloc
+#endif
 void* yr_realloc(void* ptr, size_t size)
 {
   VF_ASSERT(ptr == NULL, "the loader allocates each buffer exactly once");
@@ -33,12 +37,16 @@ void* yr_realloc(void* ptr, size_t size)
   __CPROVER_assume(p != NULL);
   return p;
 }
+#if VF_MODE != 3
 void* yr_malloc(size_t size) { void* p = malloc(size); __CPROVER_assume(p != NULL); return p; }
 void* yr_calloc(size_t count, size_t size) { void* p = calloc(count, size); __CPROVER_assume(p != NULL); return p; }
 void yr_free(void* ptr) { free(ptr); }
+#else
+#undef yr_realloc
+#endif
 #include "stream.c"
 #include "arena.c"
-#if VF_MODE == 2
+#if VF_MODE >= 2
 #include "rules.c"
 #endif
 
@@ -156,12 +164,57 @@ int main(void)
                   r == ERROR_INSUFFICIENT_MEMORY, "failure is one of the documented load errors");
     VF_WITNESS("error");
   }
+#elif VF_MODE == 3
+  /* yr_rules_from_arena on ANY arena the loader can return: 0..16 buffers, each either empty
+     (data NULL, used 0) or holding `used` <= VF_B symbolic bytes. */
+  YR_ARENA* arena = NULL;
+  uint32_t nb = vf_range(0, YR_MAX_ARENA_BUFFERS);
+  int rc = yr_arena_create(nb, 10485, &arena);
+  VF_ASSUME(rc == ERROR_SUCCESS);
+  for (uint32_t i = 0; i < YR_MAX_ARENA_BUFFERS; i++)
+  {
+    if (i >= nb) break;
+    size_t used = vf_range(0, VF_B);
+    if (used > 0)
+    {
+      arena->buffers[i].data = malloc(VF_B);
+      __CPROVER_assume(arena->buffers[i].data != NULL);
+      vf_fill(arena->buffers[i].data, VF_B);
+      arena->buffers[i].size = 10485;
+      arena->buffers[i].used = used;
+    }
+  }
+  YR_RULES* rules = NULL;
+  int r = yr_rules_from_arena(arena, &rules);
+  if (r == ERROR_SUCCESS)
+  {
+    VF_ASSERT(rules != NULL, "success returns a rule set");
+    YR_ARENA* a = rules->arena;
+    VF_ASSERT(a->num_buffers == YR_NUM_SECTIONS, "a loaded rule set has all sections");
+    VF_ASSERT((size_t) rules->num_rules + 1 <= a->buffers[YR_RULES_TABLE].used / sizeof(YR_RULE), "rules table holds the announced rules and the terminator");
+    VF_ASSERT((size_t) rules->num_strings <= a->buffers[YR_STRINGS_TABLE].used / sizeof(YR_STRING), "strings table holds the announced strings");
+    VF_ASSERT((size_t) rules->num_namespaces <= a->buffers[YR_NAMESPACES_TABLE].used / sizeof(YR_NAMESPACE), "namespaces table holds the announced namespaces");
+    VF_ASSERT(rules->ext_vars_table != NULL && rules->rules_table != NULL, "tables with terminators exist");
+    VF_WITNESS("success");
+  }
+  else
+  {
+    VF_ASSERT(rules == NULL, "failure returns no rule set");
+    VF_ASSERT(r == ERROR_CORRUPT_FILE || r == ERROR_INSUFFICIENT_MEMORY, "failure is a documented load error");
+    VF_WITNESS("error");
+  }
 #else
   YR_RULES* rules = NULL;
   int r = yr_rules_load_stream(&st, &rules);
   if (r == ERROR_SUCCESS)
   {
     VF_ASSERT(rules != NULL, "success returns a rule set");
+    YR_ARENA* a = rules->arena;
+    VF_ASSERT(a->num_buffers == YR_NUM_SECTIONS, "a loaded rule set has all sections");
+    VF_ASSERT((size_t) rules->num_rules + 1 <= a->buffers[YR_RULES_TABLE].used / sizeof(YR_RULE), "rules table holds the announced rules and the terminator");
+    VF_ASSERT((size_t) rules->num_strings <= a->buffers[YR_STRINGS_TABLE].used / sizeof(YR_STRING), "strings table holds the announced strings");
+    VF_ASSERT((size_t) rules->num_namespaces <= a->buffers[YR_NAMESPACES_TABLE].used / sizeof(YR_NAMESPACE), "namespaces table holds the announced namespaces");
+    VF_ASSERT(rules->ext_vars_table != NULL, "externals table has its terminator");
     VF_WITNESS("success");
   }
   else
